@@ -8,22 +8,30 @@ from harness.core import enc_str, dec_str
 
 PROPERTY = "C11"
 READY = True
-THEOREMS = ["C11.consts_ok", "C11.no_loss", "C11.read_render", "C11.norm_perm", "C11.keys_sorted", "C11.lines",
-            "C11.lines_own_chunks", "C11.read_lines", "C11.sort_then_render", "C11.text_determines_value"]
+THEOREMS = ["C11.consts_ok", "C11.wf_checked", "C11.no_loss", "C11.read_render", "C11.int_text", "C11.norm_perm", "C11.keys_sorted", "C11.lines",
+            "C11.lines_own_chunks", "C11.read_lines", "C11.sort_then_render", "C11.one_line_fits", "C11.chunk_classes",
+            "C11.text_determines_value"]
 RULE = ("one value per case, printed in both modes and consumed in every way a caller can (whole text, str(), lines "
-        "streamed / collected first / rendered in reverse / by index / iterated twice, text after iteration) and "
-        "through the chunk generator at an offset (diagnostic); values: all pairs of 9 atoms in lists/dicts, random nestings (depth <= 5), containers of "
-        "0,1,2,3,30,60,120 simple items at offsets 0..40, lists and dicts whose one-line length is the threshold "
-        "-2..+2 at every even offset 0..40, wrapped lists with lines that reach the wrap limit -1..+2 and items "
-        "longer than the limit, mixtures, keys that trap code-point order (case, digits, non-ASCII, astral). "
-        "Malformed stream (diagnostic, for the specification's reader only): the printed JSON text with 1-2 random "
-        "character edits, read by the Lean reader and by json.loads. non-trivial = the value contains a non-empty "
-        "container; distinct by protocol text")
-TRUSTED = ["str() of int/float (the number text is handed to the model as data)",
+        "streamed / collected first / rendered in reverse / by index / iterated twice / after the text / two results in "
+        "lock step, text after iteration), plus call sequences of several values through the same printer; diagnostic: "
+        "the chunk generator at offsets 0..40 with the syntax class of every chunk, colours on then stripped, PPWrap, "
+        "and the specification's reader against json.loads / ast on every printed text and on JSON texts with 1-2 "
+        "random character edits (the malformed stream). Values: all pairs (thorough: triples) of 9 atoms in lists/dicts, "
+        "random nestings (depth <= 5), containers of 0,1,2,3,30,60,120 simple items at offsets 0..40, lists and dicts "
+        "whose one-line length is the threshold -2..+2 at every even offset 0..40, dicts/lists where a *prefix* of the "
+        "sorted entries reaches the threshold -6..+3 and more entries follow, wrapped lists with lines that reach the "
+        "wrap limit -1..+2, one item of the width of an empty line -3..+3 / longer at the first, a middle, the last, "
+        "the only position, long keys and values in dicts, nesting depth 30..101 (offsets beyond both limits), a value "
+        "next to a string that spells it (1/'1', None/'None'/'null', 1.0/'1.0', []/'[]' ...) in one container and in "
+        "consecutive calls, keys that trap code-point order. Thresholds are read from the tree under test. "
+        "non-trivial = the value contains a non-empty container; distinct by protocol text")
+TRUSTED = ["str() of float (the text is handed to the model as data; str(int) is modelled: showInt)",
            "json.loads / ast.literal_eval / ast.parse (the oracle's readers)"]
-ASSUMPTIONS = ["str() of a finite int/float follows the JSON number grammar and json.loads / ast.literal_eval read "
-               "that text back as the same number (C11.read_render keeps a number as its text; asserted by the "
-               "generator for every number and exercised by every case with numbers)",
+ASSUMPTIONS = ["str() of a finite float follows the JSON number grammar, is not an integer text, and json.loads / "
+               "ast.literal_eval read that text back as the same float (C11.read_render keeps a float as its text; "
+               "asserted by the generator for every float and exercised by every case with floats)",
+               "json.loads / ast.literal_eval read a decimal integer text as that integer (the reader's intOf? is the "
+               "specification of it; compared with both parsers on every printed text)",
                "Python's == on dicts ignores the order of entries (C11.norm_perm states the permutation)"]
 
 
@@ -137,7 +145,9 @@ def enc_val(v):
             out.append("Z")
         elif isinstance(x, str):
             out.append("s:" + enc_str(x))
-        elif isinstance(x, (int, float)):
+        elif isinstance(x, int):
+            out.append("i:%d" % x)
+        elif isinstance(x, float):
             out.append("n:" + enc_str(str(x)))
         elif isinstance(x, list):
             for y in x:
@@ -168,9 +178,10 @@ def dec_val(tokens):
             st.append(None)
         elif t.startswith("s:"):
             st.append(dec_str(t[2:]))
+        elif t.startswith("i:"):
+            st.append(int(t[2:]))
         elif t.startswith("n:"):
-            txt = dec_str(t[2:])
-            st.append(int(txt) if _INT.match(txt) else float(txt))
+            st.append(float(dec_str(t[2:])))
         elif t.startswith("l:"):
             n = int(t[2:])
             items = st[len(st) - n:]
@@ -196,8 +207,8 @@ def _numbers_ok(v):
         return all(_numbers_ok(x) for x in v)
     if isinstance(v, dict):
         return all(_numbers_ok(x) for x in v.values())
-    if isinstance(v, (int, float)) and not isinstance(v, bool):
-        return bool(_NUM.match(str(v)))
+    if isinstance(v, float):                # a finite float: JSON number text that is not an integer text
+        return bool(_NUM.match(str(v))) and not _INT.match(str(v))
     return True
 
 
@@ -209,7 +220,9 @@ def mk_case(v, kind, off=0, rng=None):
     lines = ["pp j " + e, "ln j " + e, "lc j " + e, "lr j " + e, "l2 j " + e, "li j " + e, "lp j " + e, "lz j " + e,
              "pa j " + e, "ps j " + e,
              "pp p " + e, "ln p " + e, "lc p " + e,
-             "gen j %d %s" % (off, e), "gen p %d %s" % (off, e)]
+             "gen j %d %s" % (off, e), "gen p %d %s" % (off, e),
+             # options of the call that C11 does not speak about (diagnostic): colours on, then stripped
+             "pc j " + e, "pc p " + e, "pw p " + e]
     # the specification-side reader against the real parsers, on the text the real printer gives
     for mode in ("j", "p"):
         try:
@@ -249,7 +262,7 @@ def _mutate(rng, text):
 
 def observable(i, line):
     # the chunk generator is internal; `rd` compares the specification's reader with json / ast
-    return not (line.startswith("gen ") or line.startswith("rd "))
+    return not (line.startswith("gen ") or line.startswith("rd ") or line.startswith("pc ") or line.startswith("pw "))
 
 
 # ------------------------------------------------------------------ real code
@@ -271,6 +284,16 @@ def impl(case):
             pp = _printer(mode)
             if op == "pp":
                 out.append("ok " + enc_str(pp(dec_val(rest), no_color=True).plain_text()))
+            elif op == "pc":                # colours on (default palette), escape sequences stripped afterwards
+                from ak.color import CHText
+                res = pp(dec_val(rest))
+                a = CHText.strip_colors(str(res))
+                b = "\n".join(CHText.strip_colors(str(l)) for l in pp(dec_val(rest), palette=type(pp).PPPalette))
+                out.append("ok " + enc_str(a if a == b else a + "<lines with palette= differ>" + b))
+            elif op == "pw":                # PPWrap (the interactive wrapper: Python mode, coloured)
+                from ak.color import CHText
+                from ak.ppobj import PPWrap
+                out.append("ok " + enc_str(CHText.strip_colors(str(PPWrap(dec_val(rest))))))
             elif op == "ps":                # str() of a no-colour result
                 out.append("ok " + enc_str(str(pp(dec_val(rest), no_color=True))))
             elif op == "pa":                # the whole text asked for after the lines were iterated
@@ -287,9 +310,16 @@ def impl(case):
             elif op in LINE_OPS:
                 out.append("ok " + "|".join(enc_str(t) for t in _consume_lines(op, pp(dec_val(rest), no_color=True))))
             elif op == "gen":
-                cp = pp._mk_palette(None, True, None)
+                # a coloured palette, so that the syntax class of every chunk can be read off its colour
+                cp = pp._mk_palette(None, False, None)
+                kinds = {}
+                for letter, meth in (("t", cp.text), ("k", cp.name), ("d", cp.number), ("w", cp.keyword)):
+                    kinds.setdefault(meth("x").c_prefix, letter)
+                if len(kinds) != 4:
+                    kinds = None                # the configuration does not tell the classes apart
                 chunks = pp._gen_ch_chunks_for_obj(cp, dec_val(rest[1:]), offset=int(rest[0]))
-                out.append("ok " + "|".join("N" if c is None else enc_str(c.text) for c in chunks))
+                out.append("ok " + "|".join(
+                    "N" if c is None else (kinds[c.c_prefix] if kinds else "?") + ":" + enc_str(c.text) for c in chunks))
             elif op == "rd":
                 out.append(_rd(mode, dec_str(rest[0])))
             else:
@@ -352,7 +382,7 @@ def _enc_read(x):
         elif y is None:
             out.append("Z")
         elif isinstance(y, _Num):
-            out.append("n:" + enc_str(y))
+            out.append(("i:%d" % int(y)) if _INT.match(y) else "n:" + enc_str(y))
         elif isinstance(y, str):
             out.append("s:" + enc_str(y))
         elif isinstance(y, _Pairs):
@@ -678,6 +708,102 @@ def _wrapped_list(rng, off, limit=150):
     return items
 
 
+def _entry_len(k, v):
+    """characters a dict entry adds to the one-line form, without separator"""
+    return len(k) + 2 + 2 + _chunk_len(v)
+
+
+def _dict_prefix_boundary(rng, target, k, more):
+    """all-simple dict, keys p00 < p01 < ...: `{` + the first k sorted entries (with separators) is exactly
+    `target` characters, then `more` further entries"""
+    d = {}
+    length = 1
+    for i in range(k):
+        key = "p%02d" % i
+        sep = 2 if i else 0
+        if i == k - 1:
+            need = target - length - sep - (len(key) + 4)
+            if need < 2:
+                return None
+            d[key] = _str_of_len(rng, need)
+            length = target
+        else:
+            room = (target - length) // (k - i) - 12
+            v = _simple(rng, max(0, min(25, room)))
+            d[key] = v
+            length += sep + _entry_len(key, v)
+    for j in range(more):
+        d["q%02d" % j] = _simple(rng, 6)
+    if rng.random() < 0.5:                  # insertion order != sorted order
+        items = list(d.items())
+        rng.shuffle(items)
+        d = dict(items)
+    return d
+
+
+def _list_prefix_boundary(rng, target, k, more):
+    """simple items: sum(len(chunk) + 2) over the first k items is exactly `target`, then `more` further items"""
+    items = _list_one_line(rng, target) if target >= 4 else []
+    return items + [_simple(rng, 6) for _ in range(more)]
+
+
+def _long_item_list(rng, off, limit, pos):
+    """a list that must be wrapped, with one item around / over the width of an empty line at position `pos`"""
+    room = limit - off - 2                  # what fits an empty line
+    n = rng.choice([room - 3, room - 2, room - 1, room, room + 1, room + 2, room + 3, limit, limit + 1, 160, 200, 250])
+    n = max(2, n)
+    big = _str_of_len(rng, n)
+    if pos == "only":
+        return [big]
+    others = [_simple(rng, rng.choice([0, 5, 30])) for _ in range(rng.choice([1, 2, 5, 40]))]
+    if pos == "first":
+        return [big] + others
+    if pos == "last":
+        return others + [big]
+    i = rng.randrange(1, len(others)) if len(others) > 1 else 1
+    return others[:i] + [big] + others[i:]
+
+
+_COLLIDE = [0, 1, -1, 42, 10 ** 20, 1.0, 2.5, -0.0, 1e22, 1e-07, True, False, None, [], {}]
+
+
+def _spellings(x):
+    """strings that could be confused with the value"""
+    out = [str(x)]
+    if x is True:
+        out += ["true", "1"]
+    elif x is False:
+        out += ["false", "0"]
+    elif x is None:
+        out += ["null", ""]
+    elif isinstance(x, float):
+        out += [repr(x), str(int(x)) if x == int(x) and abs(x) < 1e15 else str(x)]
+    elif isinstance(x, int):
+        out += [str(float(x)), str(x) + " "]
+    return out
+
+
+def _collision_values(rng):
+    x = rng.choice(_COLLIDE)
+    sp = rng.choice(_spellings(x))
+    pair = [x, sp] if rng.random() < 0.5 else [sp, x]
+    fill = [rng.choice(_COLLIDE + ["1", "None", "True", "[]", "{}", "2.5", "x"]) for _ in range(rng.choice([0, 0, 2, 8, 90]))]
+    lst = pair + fill
+    if fill and rng.random() < 0.5:
+        rng.shuffle(lst)
+    return x, sp, lst
+
+
+def mk_seq(values, kind):
+    """several values through the same printer objects, one after the other (no memory between calls)"""
+    lines = []
+    for v in values:
+        e = enc_val(v)
+        lines += ["pp j " + e, "lc j " + e, "pp p " + e]
+    return {"lines": lines, "meta": {"kind": kind}}
+
+
+
 def _limits():
     """the thresholds of the tree under test (so that the generators aim at its boundaries)"""
     try:
@@ -759,6 +885,61 @@ def gen_cases(rng, tier):
                 parts[_key(rng)] = _value(rng, 2, True)
         v = parts if rng.random() < 0.6 else list(parts.values())
         yield mk(_wrap(rng, v, depth), "mixture", 2 * depth)
+    # 6. boundaries measured on partial prefixes: `{` + the first k sorted entries (resp. the first k list items)
+    #    is the one-line limit -6..+3 / the wrap limit -3..+3, and more entries follow
+    for depth in ([0, 0, 0, 1, 2, 7] if quick else [0, 0, 0, 0, 1, 2, 3, 7, 20]):
+        off = 2 * depth
+        for delta in range(-6, 4):
+            for _ in range(2 if quick else 12):
+                k = rng.choice([1, 1, 2, 3, 5])
+                more = rng.choice([1, 1, 2, 3])
+                d = _dict_prefix_boundary(rng, lim_d - off + delta, k, more)
+                if d is not None:
+                    yield mk(_wrap(rng, d, depth), "dict-prefix%+d" % delta, off)
+                v = _list_prefix_boundary(rng, lim_l - off + delta, k, more)
+                yield mk(_wrap(rng, v, depth), "list-prefix%+d" % delta, off)
+    # 7. an item around / over the width of a line, at every position (first, middle, last, only)
+    for pos in ("first", "middle", "last", "only"):
+        for _ in range(40 if quick else 600):
+            depth = rng.choice([0, 0, 0, 1, 2, 5, 20])
+            v = _long_item_list(rng, 2 * depth, lim_w, pos)
+            yield mk(_wrap(rng, v, depth), "long-item-" + pos, 2 * depth)
+    for _ in range(20 if quick else 300):       # long keys / long values in dicts
+        n = rng.choice([lim_w - 3, lim_w, lim_w + 1, lim_d - 8, lim_d, 250])
+        d = {_str_of_len(rng, n)[:n - 2] or "k": _simple(rng, 5), "b": _str_of_len(rng, n), "a": [1, _str_of_len(rng, n)]}
+        yield mk(d, "long-entry")
+    # 8. deep nesting: offsets beyond the wrap limit and beyond the one-line limit
+    for depth in ([30, 60, 72, 73, 74, 75, 76, 80, 101] if quick else list(range(60, 104)) + [120, 150]):
+        for payload in ([1, 2, 3], list(range(120)), ["ab"] * 70, {"a": 1, "b": "x"}, {"k%02d" % i: i for i in range(30)},
+                        [_str_of_len(rng, 30)], [[], {}], "s"):
+            yield mk(_wrap(rng, payload, depth), "deep-%s" % ("<74" if depth < 74 else ">=74"), 2 * depth)
+    # 9. a value next to a string that spells it, inside one container
+    for _ in range(150 if quick else 3000):
+        x, sp, lst = _collision_values(rng)
+        r = rng.random()
+        if r < 0.5:
+            v = lst
+        elif r < 0.7:
+            v = {("k%d" % i): y for i, y in enumerate(lst[:40])}
+        elif r < 0.85:
+            v = {sp: x, "z": sp, "l": lst[:10]}
+        else:
+            v = [lst[:5], {"a": lst[:3]}, lst]
+        yield mk(v, "collision")
+    for x in _COLLIDE:                          # every collision pair, both orders, exhaustively
+        for sp in _spellings(x):
+            yield mk([x, sp], "collision")
+            yield mk([sp, x], "collision")
+            yield mk({"a": x, "b": sp}, "collision")
+    # 10. call sequences on the same printer: the result of a call does not depend on earlier calls
+    for _ in range(60 if quick else 1500):
+        x, sp, lst = _collision_values(rng)
+        a = _value(rng, 1, False)
+        seq = rng.choice([
+            [[x], [sp], [x]], [[sp], [x]], [{"k": x}, {"k": sp}], [lst, lst[::-1], lst],
+            [a, _value(rng, 1, False), a], [{"a": 1, "b": 2}, {"b": 1, "a": 2}, {"a": 1}],
+            [_wrapped_list(rng, 0, lim_w), [x, sp], a]])
+        yield mk_seq(seq, "sequence")
 
 
 def search_cases(rng, tier):
@@ -869,24 +1050,57 @@ def tags(case, replies):
     yield "longest-line:" + ("<100" if longest < 100 else "<150" if longest < 150 else "<200" if longest < 200 else ">=200")
     if re.search(r"\[\n +[^\n\[\]{}]*, [^\n]*,?\n", text):
         yield "layout:wrapped-list"
+    if re.search(r"(^|[ :])\[[^\n\[\]]+, [^\n\[\]]+\]", text):
+        yield "layout:one-line-list"
+    if re.search(r"\{\"[^\n]*\": [^\n{}]*\}", text):
+        yield "layout:one-line-dict"
+    if re.search(r"\{\n +\"[^\n]*\": [^\n\[{]*,\n", text):
+        yield "layout:dict-entry-per-line"
+    if re.search(r"\[\n +[\[{]", text):
+        yield "layout:list-item-per-line"
+    if re.search(r"\[\n +\"[^\n]{147,}\",?\n", text):
+        yield "layout:over-long-item-alone"
+    v = _first_value(case)
+    kinds = set()
+
+    def walk(x):
+        kinds.add("bool" if x is True or x is False else "none" if x is None else
+                  ("int-neg" if x < 0 else "int") if isinstance(x, int) else type(x).__name__)
+        if isinstance(x, list):
+            for y in x:
+                walk(y)
+        elif isinstance(x, dict):
+            for y in x.values():
+                walk(y)
+    walk(v)
+    for k in sorted(kinds):
+        yield "has:" + k
 
 
 LEVEL_TEXT = ("For every JSON-like value (any nesting, size and offset; strings without quote, backslash, control "
-              "characters; numbers as the text str() prints), every choice of the layout thresholds and both keyword "
-              "tables, proved in Lean on a model of PrettyPrinter's chunk generator: the printed text lexes to exactly the "
-              "tokens of the value with dict entries sorted by key (no element lost, duplicated or reordered in the "
-              "one-line, wrapped and one-item-per-line layouts), a JSON-grammar reader returns that value, the sorted "
-              "value is the same value up to dict order, keys are strictly increasing by code point, and the line "
-              "iteration joined by line feeds is the text. Keyword tables, thresholds and indentation are re-read from "
-              "ak/ppobj.py on every run; model = code (exact text, lines, chunk lists at offsets 0..40) and "
+              "characters; every int, its decimal text computed by the model; floats as the text str() prints), every "
+              "choice of the layout thresholds and both keyword tables, proved in Lean on a model of PrettyPrinter's "
+              "chunk generator: the printed text lexes to exactly the tokens of the value with dict entries sorted by key "
+              "(no element lost, duplicated or reordered in the one-line, wrapped and one-item-per-line layouts), a "
+              "JSON-grammar reader returns that value (ints as integers), the sorted value is the same value up to dict "
+              "order, keys are strictly increasing by code point, the line iteration joined by line feeds is the text and "
+              "closed lines never change, a container printed on one line ends left of the one-line limit, every chunk's "
+              "syntax class agrees with its text, and the domain predicate is a test the driver runs on every request. "
+              "Keyword tables, thresholds and indentation are re-read from ak/ppobj.py on every run; model = code (exact "
+              "text, lines in nine consumption orders, call sequences, chunk lists with classes at offsets 0..40) and "
               "reader = json.loads / ast.literal_eval are established by differential runs.")
-LEVEL_NOTE = ("Kernel-checked theorems: C11.no_loss, read_render, read_lines, norm_perm, keys_sorted, lines, lines_own_chunks, sort_then_render, "
-              "text_determines_value, consts_ok (axioms propext, Classical.choice, Quot.sound). Resting on the sampled "
-              "correspondence only: that the Lean model computes the text of the real printer (compared character by "
-              "character on ~5k values per quick run around both thresholds), and that the Lean reader is what json.loads / "
-              "ast.literal_eval do (compared on every printed text and on randomly damaged JSON texts; diagnostic). "
-              "Trusted, not verified: str() of int/float and that the real parsers read such a token back as the same "
-              "number (number tokens are text in the model; NaN/Infinity are outside the domain), CPython's recursion "
-              "limit (nesting beyond ~400 levels raises RecursionError), the translator and adapter in harness/c11.py.")
-TECHNIQUE = ("Lean 4 theorems (lexer/parser round trip through a layout-independent token sequence, induction over values) "
-             "+ translator for keyword tables/thresholds/indentation + correspondence check")
+LEVEL_NOTE = ("Kernel-checked theorems (axioms propext, Classical.choice, Quot.sound): C11.consts_ok, wf_checked, no_loss, "
+              "read_render, int_text, norm_perm, keys_sorted, lines, lines_own_chunks, read_lines, sort_then_render, "
+              "one_line_fits, chunk_classes, text_determines_value. Resting on the sampled correspondence only: that the "
+              "Lean model computes the text / lines / chunks of the real printer (compared character by character on ~5k "
+              "values per quick run, boundaries of both thresholds measured on whole containers and on prefixes, over-long "
+              "items at every position, nesting to depth 101, value/spelling collisions, call sequences), that the object "
+              "has no memory between calls and between consumption orders (the model is a pure function; the adapter "
+              "exercises nine orders and sequences), and that the Lean reader is what json.loads / ast.literal_eval do "
+              "(compared on every printed text and on randomly damaged JSON texts; diagnostic). Trusted, not verified: "
+              "str() of a float and that the real parsers read that token back as the same float (NaN/Infinity are "
+              "outside the domain), CPython's recursion limit (nesting of ~1000 levels raises RecursionError), the "
+              "translator and adapter in harness/c11.py.")
+TECHNIQUE = ("Lean 4 theorems (lexer/parser round trip through a layout-independent token sequence, induction over values, "
+             "decimal digits round trip for ints) + translator for keyword tables/thresholds/indentation + "
+             "correspondence check over consumption orders and call sequences")
